@@ -252,6 +252,36 @@ def main(prop: str, tier: str, classes=None) -> int:
     for rec in extra:
         chk.count("keep_history_false")
         ORACLES[prop](chk, rec)
+    if prop in ("C01", "C02"):
+        # the parallel evaluation path: every stored fitness is the objective of the individual stored
+        # in that slot, and the record is the maximum of everything evaluated (module-level objectives)
+        import c16_workers as W
+        from thefittest.optimizers import DifferentialEvolution, GeneticAlgorithm, SHAGA, jDE
+        W.DELAYS = 0
+        for cls, kw, f in ((DifferentialEvolution, dict(iters=5, pop_size=10, left_border=-2.0, right_border=2.0, num_variables=3), W.sphere_delayed),
+                           (jDE, dict(iters=4, pop_size=7, left_border=-2.0, right_border=2.0, num_variables=2), W.sphere_delayed),
+                           (GeneticAlgorithm, dict(iters=5, pop_size=9, str_len=12), W.onemax_delayed),
+                           (SHAGA, dict(iters=4, pop_size=7, str_len=10), W.onemax_delayed)):
+            for nj, mn in ((2, False), (3, True)):
+                o = cls(fitness_function=f, minimization=mn, n_jobs=nj, keep_history=True, random_state=chk.seed + 31, **kw)
+                o.fit()
+                st = o.get_stats()
+                sign = -1.0 if mn else 1.0
+                chk.count("parallel_" + cls.__name__)
+                chk.case(("parallel", cls.__name__, nj, mn))
+                dd = {"optimizer": cls.__name__, "n_jobs": nj, "minimization": mn}
+                best = -np.inf
+                for k in range(len(st["fitness"])):
+                    exp = sign * f(np.asarray(st["population_ph"][k]))
+                    if not np.array_equal(np.asarray(st["fitness"][k], dtype=np.float64), exp):
+                        chk.fail("with n_jobs > 1 the fitness stored for a slot is not the objective value of the individual stored there",
+                                 {**dd, "generation": k}, {"optimizer": cls.__name__, "clause": "slot_consistent_parallel"})
+                        break
+                    best = max(best, float(np.max(exp)))
+                ft = o.get_fittest()
+                if float(ft["fitness"]) != float(sign * f(np.asarray([ft["phenotype"]]))[0]) or (cls not in (DifferentialEvolution, jDE, SHAGA) and float(ft["fitness"]) != best):
+                    chk.fail("with n_jobs > 1 the reported best fitness is not the objective value of the reported phenotype",
+                             dd, {"optimizer": cls.__name__, "clause": "best_parallel"})
     chk.notes.append("runs: 10 optimizer classes x objectives {regular, plateau, all-ties, negative, 1e300-scaled, asymmetric} x elitism x minimization x g2p x init_population + stopping scenarios; each replayed through TFV.Model.EA (oracle = the observed offspring batches) and compared at every generation boundary; distinct = distinct run configurations")
     chk.assumptions.append("objectives are deterministic and NaN-free (NaN breaks numpy's argmax itself)")
     return chk.finish()
